@@ -987,7 +987,11 @@ pub fn normalize_path(path: &Path) -> PathBuf {
             }
             Component::CurDir => {}
             Component::ParentDir => {
-                ret.pop();
+                // A `..` that has nothing to cancel (leading, or following another
+                // kept `..`, in a relative path) must be kept.
+                if ret.ends_with(Component::ParentDir) || (!ret.pop() && !ret.has_root()) {
+                    ret.push(component.as_os_str());
+                }
             }
             Component::Normal(c) => {
                 ret.push(c);
